@@ -2,6 +2,7 @@
 #include "vf.hpp"
 #include <tfhe.h>
 #include <cmath>
+#include <pthread.h>
 using namespace vf;
 
 struct Doc { int n; double ks_sd; int N, k; double bk_sd; int l, Bgbit, t, basebit; double max_sd; double bound; };
@@ -86,6 +87,34 @@ int main(int argc, char **argv) {
             eval(1); nontrivial(1);
         }
     }
+    // lifecycles: every sequence of <= depth operations over {request 80 / 128 on this thread, request 80 / 128 on a worker thread that exits,
+    // delete the oldest live set, delete the newest live set}; after EVERY operation every live set is re-checked field by field
+    {
+        static const char *OPN[] = {"new80", "new128", "thread80", "thread128", "del-oldest", "del-newest"};
+        int depth = (int)opti("lifedepth", quick() ? 4 : 5); long total = 1; for (int d = 0; d < depth; d++) total *= 6;
+        for (int d = 2; d <= depth; d++) { long cnt = 1; for (int q = 0; q < d; q++) cnt *= 6;
+            for (long e = 0; e < cnt; e++) {
+                int seq[8]; long x = e; int live = 0; bool valid = true, has_del = false; for (int q = 0; q < d; q++) { seq[q] = (int)(x % 6); x /= 6; if (seq[q] < 4) live++; else { has_del = true; if (live == 0) valid = false; else live--; } }
+                if (!valid || (!has_del && seq[d - 1] < 2 && d > 2)) continue;   // sequences without deletion or thread are covered by the history group above
+                std::string key = "lifecycle/"; for (int q = 0; q < d; q++) key += std::string(OPN[seq[q]]) + (q + 1 < d ? "," : "");
+                if (!take(key)) continue; if (deadline()) break; current(key);
+                Fate f = forked([&] {
+                    std::vector<std::pair<TFheGateBootstrappingParameterSet *, int>> sets;
+                    for (int q = 0; q < d; q++) { int op = seq[q];
+                        if (op < 2) sets.push_back({new_default_gate_bootstrapping_parameters(op ? 128 : 80), op ? 128 : 80});
+                        else if (op < 4) { TFheGateBootstrappingParameterSet *p = nullptr; int lam = op == 3 ? 128 : 80; pthread_t th; struct A { TFheGateBootstrappingParameterSet **p; int lam; } a{&p, lam};
+                            pthread_create(&th, nullptr, [](void *v) -> void * { A *a = (A *)v; *a->p = new_default_gate_bootstrapping_parameters(a->lam); return nullptr; }, &a); pthread_join(th, nullptr); sets.push_back({p, lam}); }
+                        else { size_t idx = op == 4 ? 0 : sets.size() - 1; delete_gate_bootstrapping_parameters(sets[idx].first); sets.erase(sets.begin() + idx); }
+                        for (size_t i = 0; i < sets.size(); i++) { std::string er = check_set(sets[i].first, sets[i].second <= 80 ? DOC80 : DOC128);
+                            if (!er.empty()) { violation(key, fmt("after operation %d (%s) the live %d-bit set number %zu no longer matches the documented set: ", q + 1, OPN[op], sets[i].second, i + 1) + er); return; } } }
+                    outcome(mix(0x11FE, (uint64_t)sets.size()));
+                }, 20);
+                if (f.died()) violation(key, "process died: " + fate_str(f) + " " + f.text.substr(0, 200));
+                eval(1); nontrivial(1);
+            } }
+        (void)total;
+    }
+    sample("lifecycle/new80,thread128,del-oldest,new80: the 128-bit set was requested by a worker thread that has exited; after every operation every live set is compared field by field with the documented set");
     sample("history/80,128,81: three requests in one process, each answer checked field by field");
     sample("lambda=80 -> 80-bit set (n=500, 2.44e-5, N=1024, k=1, 7.18e-9, l=2, Bgbit=10, t=8, basebit=2), every field + derived fields + margins");
     sample("lambda=81 -> 128-bit set (n=630, 2^-15, N=1024, 2^-25, l=3, Bgbit=7, t=8, basebit=2)"); sample("lambda=0, -5, 129, 300, INT32_MIN, INT32_MAX -> SIGABRT");
